@@ -85,6 +85,11 @@ Section Eval.
             (lit "parameters", VDict (isort skv_leb (map (fun pv => (pd_name (fst pv), VStr (value_repr (fst pv) (fst (snd pv))))) (o_params o))));
             (lit "task", VStr (c_slug tc)) ].
 
+  (* self.input_tasks[arg] for an argument of run: the input whose task name is arg (the harness names
+     only inputs whose task names are unambiguous among the inputs) *)
+  Definition find_input (o : obj) (arg : str) : option (str * (nat + value)) :=
+    find (fun inp => str_eqb (last_str (split_c colon (fst inp))) arg) (o_inputs o).
+
   (* Task.data / Task.value.  Errors: ERun (run raised, here or upstream). *)
   Fixpoint eval (fuel : nat) (w : world) (id : nat) : world * res value :=
     match fuel with
@@ -109,8 +114,25 @@ Section Eval.
                     | None =>
                         (* run: log handler opens (truncates) the log, run started *)
                         let w2 := with_store (dset (log_path tc o) (FLog []) (w_store w1)) w1 in
-                        let w3 := {| w_store := w_store w2; w_objs := w_objs w2; w_states := w_states w2;
-                                     w_runlog := w_runlog w2 ++ [(c_slug tc, o_key o)]; w_fail := w_fail w2 |} in
+                        (* _get_run_arguments: the inputs named in the signature of run are requested, in that order,
+                           before the body of run starts *)
+                        let pre (acc : world * bool) (k : str) :=
+                          match acc with
+                          | (wa, false) => (wa, false)
+                          | (wa, true) =>
+                              match find_input o k with
+                              | Some (_, inl j) => match eval f wa j with
+                                                   | (wb, inl _) => (wb, true)
+                                                   | (wb, inr _) => (wb, false)
+                                                   end
+                              | _ => (wa, true)
+                              end
+                          end in
+                        match fold_left pre (c_runargs tc) (w2, true) with
+                        | (w2', false) => (w2', inr ERun)
+                        | (w2', true) =>
+                        let w3 := {| w_store := w_store w2'; w_objs := w_objs w2'; w_states := w_states w2';
+                                     w_runlog := w_runlog w2' ++ [(c_slug tc, o_key o)]; w_fail := w_fail w2' |} in
                         if existsb (str_eqb (c_slug tc)) (w_fail w3) then (w3, inr ERun)
                         else
                           (* the generated run reads its inputs in declaration order *)
@@ -136,6 +158,7 @@ Section Eval.
                               let st3 := dset (info_path tc o) (FInfo (run_info tc o ins)) st2 in
                               (set_state id {| os_mem := Some v; os_forced := os_forced s |} (with_store st3 w4), inl v)
                           end
+                        end
                     end
                 end
             end
